@@ -1,7 +1,8 @@
 #!/usr/bin/env python3
 """Translator (tie T): regenerate coq/gen/Constants.v from /repo's *working tree*.
 
-Extracts declarative data only (constants, tables, match-arm tables, byte sets); control flow is
+Extracts declarative data only (constants, tables, match-arm tables, byte sets, and the offset arithmetic of
+iterator.rs / builder.rs as expressions); control flow is
 hand-modelled and tied by the correspondence check.  Exits non-zero (message on stderr) when a
 pattern is not found: the tie is then reported broken by bin/check.
 
@@ -209,6 +210,90 @@ def raw_string_delims(repo):
     return sorted(set(byte_lit(l) for l in lits))
 
 
+# ---------------------------------------------------------------- offset arithmetic of iterator.rs / builder.rs
+def arith(expr, names):
+    """a Rust integer expression over +, *, parentheses, literals and the given names -> the same expression in Coq (N)"""
+    e = expr.strip()
+    for rust, coq in names.items():
+        e = e.replace(rust, coq)
+    e = re.sub(r'\s+', ' ', e)
+    if not re.fullmatch(r'[0-9a-z_ +*()]+', e):
+        raise TranslateError('unsupported offset expression: %r' % expr)
+    for ident in re.findall(r'[a-z_]+', e):
+        if ident not in names.values():
+            raise TranslateError('unknown name %r in offset expression %r' % (ident, expr))
+    return e
+
+
+def block_after(src, header_re):
+    m = re.search(header_re, src)
+    if not m:
+        raise TranslateError('block %s not found' % header_re)
+    i = src.index('{', m.end() - 1)
+    depth = 0
+    for j in range(i, len(src)):
+        if src[j] == '{':
+            depth += 1
+        elif src[j] == '}':
+            depth -= 1
+            if depth == 0:
+                return src[i:j + 1]
+    raise TranslateError('unbalanced braces after %s' % header_re)
+
+
+def field(body, name):
+    m = re.search(r'\b' + name + r'\s*:\s*([^,}]+)[,}]', body)
+    if not m:
+        raise TranslateError('field %s not found' % name)
+    return m.group(1)
+
+
+def step(body, name):
+    m = re.search(r'self\.' + name + r'\s*\+=\s*([0-9]+)\s*;', body)
+    if not m:
+        raise TranslateError('increment of %s not found' % name)
+    return int(m.group(1))
+
+
+def offsets(repo):
+    """initial offsets and entry-word strides of the three iterators; initial lengths / reserved sizes of the builders"""
+    it = strip_comments(open(os.path.join(repo, 'src/iterator.rs')).read())
+    L = {'length': 'length'}
+    out = []
+    a = fn_body(it, 'iterate_array')
+    out.append(('ITER_ARR_JOFF', 'length', arith(field(a, 'jentry_offset'), L)))
+    out.append(('ITER_ARR_VOFF', 'length', arith(field(a, 'val_offset'), L)))
+    k = fn_body(it, 'iteate_object_keys')
+    out.append(('ITER_KEYS_JOFF', 'length', arith(field(k, 'jentry_offset'), L)))
+    out.append(('ITER_KEYS_KOFF', 'length', arith(field(k, 'key_offset'), L)))
+    e = fn_body(it, 'iterate_object_entries')
+    out.append(('ITER_ENT_JOFF', 'length', arith(field(e, 'jentry_offset'), L)))
+    out.append(('ITER_ENT_KOFF', 'length', arith(field(e, 'key_offset'), L)))
+    out.append(('ITER_ENT_VOFF', 'length', arith(field(e, 'val_offset'), L)))
+    consts_ = []
+    consts_.append(('ITER_ARR_JSTEP', step(block_after(it, r'impl<\'a>\s+Iterator\s+for\s+ArrayIterator<\'a>\s*\{'), 'jentry_offset')))
+    consts_.append(('ITER_KEYS_JSTEP', step(block_after(it, r'impl<\'a>\s+Iterator\s+for\s+ObjectKeyIterator<\'a>\s*\{'), 'jentry_offset')))
+    consts_.append(('ITER_ENT_JSTEP', step(block_after(it, r'impl<\'a>\s+Iterator\s+for\s+ObjectEntryIterator<\'a>\s*\{'), 'jentry_offset')))
+    consts_.append(('ITER_FILL_JSTEP', step(fn_body(it, 'fill_keys'), 'jentry_offset')))
+    bl = strip_comments(open(os.path.join(repo, 'src/builder.rs')).read())
+    N_ = {'self.entries.len()': 'n'}
+    ab = block_after(bl, r'impl<\'a>\s+ArrayBuilder<\'a>\s*\{')
+    ob = block_after(bl, r'impl<\'a>\s+ObjectBuilder<\'a>\s*\{')
+    for nm, body, var in (('ARR', fn_body(ab, 'build_into'), 'array_len'), ('OBJ', fn_body(ob, 'build_into'), 'object_len')):
+        m = re.search(r'let\s+mut\s+' + var + r'\s*=\s*([^;]+);', body)
+        r = re.search(r'reserve_jentries\(\s*buf\s*,\s*([^;]+?)\)\s*;', body)
+        if not m or not r:
+            raise TranslateError('builder %s: initial length / reserved size not found' % nm)
+        out.append(('BLD_%s_LEN0' % nm, 'n', arith(m.group(1), N_)))
+        out.append(('BLD_%s_RESERVE' % nm, 'n', arith(r.group(1), N_)))
+    rj = fn_body(bl, 'replace_jentry')
+    m = re.search(r'\*jentry_index\s*\+=\s*([0-9]+)\s*;', rj)
+    if not m:
+        raise TranslateError('replace_jentry stride not found')
+    consts_.append(('BLD_JSTEP', int(m.group(1))))
+    return out, consts_
+
+
 def coq_list(xs):
     return '[' + '; '.join(str(x) for x in xs) + ']'
 
@@ -220,6 +305,7 @@ def generate(repo):
     lvl, lvl_default = level_table(repo, C)
     jsonb_set = is_jsonb_set(repo, C)
     delims = raw_string_delims(repo)
+    offs, offc = offsets(repo)
     L = []
     L.append('(* GENERATED by tools/translate_consts.py from the working tree of /repo. Do not edit. *)')
     L.append('From Coq Require Import NArith List.')
@@ -247,6 +333,12 @@ def generate(repo):
     L.append('')
     L.append('(* jsonpath/parser.rs raw_string: delimiter byte set *)')
     L.append('Definition RAW_STRING_DELIMS : list N := %s.' % coq_list(delims))
+    L.append('')
+    L.append('(* iterator.rs / builder.rs: initial offsets, entry-word strides, initial lengths and reserved sizes, as written *)')
+    for name, var, e in offs:
+        L.append('Definition %s (%s : N) : N := %s.' % (name, var, e))
+    for name, v in offc:
+        L.append('Definition %s : N := %d.' % (name, v))
     L.append('')
     return '\n'.join(L)
 
